@@ -255,17 +255,20 @@ class Ctx:
 
 
 def load_known(prop: str) -> list[dict]:
+    """Committed list of genuine defects: known_findings.json plus per-finding files findings/*.json (never written at run time)."""
+    known: list[dict] = []
     p = VERIF / "known_findings.json"
-    if not p.exists():
-        return []
-    data = json.loads(p.read_text())
-    out = [e for e in data.get("findings", []) if e.get("property") == prop]
-    # entries proposed on a builder branch (findings/<Fid>.json) until the integrator moves them into known_findings.json
-    for f in sorted((VERIF / "findings").glob("*.json")) if (VERIF / "findings").is_dir() else []:
+    if p.exists():
+        known = [e for e in json.loads(p.read_text()).get("findings", []) if e.get("property") == prop]
+    seen = {(k.get("property"), k.get("id")) for k in known}
+    for f in sorted((VERIF / "findings").glob("*.json")):
         e = json.loads(f.read_text())
-        if e.get("property") == prop and not any(o.get("id") == e.get("id") for o in out):
-            out.append(e)
-    return out
+        items = e.get("findings", [e]) if isinstance(e, dict) else e
+        for x in items:
+            if isinstance(x, dict) and x.get("property") == prop and (x.get("property"), x.get("id")) not in seen:
+                known.append(x)
+                seen.add((x.get("property"), x.get("id")))
+    return known
 
 
 def write_replay(prop: str, obj: dict) -> str:
